@@ -16,6 +16,7 @@ from vlib.pdbio import Atom
 from props import c04
 
 PROPERTY = "C17"
+REDUCE_KEYS = ["pdb"]
 LEVEL = "exploration"
 RULE = ("(i) generated structures (segments / balls of the reference proteins with threaded side chains, no clashes, "
         "truncations, TER-less gaps) in a drawn one of the 24 grid orientations and a drawn translation, default and "
